@@ -55,10 +55,29 @@ def edge_facts(cfg, nid):
 
 
 # ---------------------------------------------------------------------------------------------
-def callable_op(fn_node, node):
-    """`lambda a, b: a OP b`, a Name bound to such a lambda, or a local `def f(a, b): return a OP b`
-    -> (operator class, swapped?) or None."""
+def _def_op(n):
+    """def f(a, b): return a OP b  -> (operator class, swapped?) or None"""
+    body = [s for s in n.body if not (isinstance(s, ast.Expr) and isinstance(s.value, ast.Constant))]
+    if len(body) == 1 and isinstance(body[0], ast.Return) and isinstance(body[0].value, ast.BinOp) and len(n.args.args) == 2:
+        a, b = n.args.args[0].arg, n.args.args[1].arg
+        v = body[0].value
+        if isinstance(v.left, ast.Name) and isinstance(v.right, ast.Name):
+            if (v.left.id, v.right.id) == (a, b):
+                return type(v.op), False
+            if (v.left.id, v.right.id) == (b, a):
+                return type(v.op), True
+    return None
+
+
+def callable_op(fn_node, node, model=None, fn=None):
+    """`lambda a, b: a OP b`, a Name bound to such a lambda, a local or module-level
+    `def f(a, b): return a OP b`, or `operator.add` -> (operator class, swapped?) or None."""
     from .dispatch import lambda_op
+
+    if isinstance(node, ast.Name) and model is not None and fn is not None:
+        g = model.module_funcs.get(fn.module, {}).get(node.id)
+        if g is not None and not any(isinstance(n, ast.Name) and n.id == node.id and isinstance(n.ctx, ast.Store) for n in ast.walk(fn_node)):
+            return _def_op(g.node)
 
     if isinstance(node, ast.Lambda):
         return lambda_op(node)
